@@ -142,11 +142,28 @@ PROPS["C09"] = {
         "two spellings of one file map to one FileId through canonicalize_path (C13) + the trusted name->id map; here canon is an uninterpreted function"],
 }
 
+PROPS["C20"] = {
+    "units": ["render"],
+    "probes": {"render": ["progress_fancy::task_message", "progress_fancy::truncate", "progress_fancy::progress_bar"]},
+    "level": "proof",
+    "assumptions": [
+        "TRUSTED byte model of str/String (R9 wrappers, render.pre.rs): len, is_char_boundary (defined on the utf-8 bytes exactly as core does), &s[..n] and String::truncate panic unless n is a boundary, push/push_str/repeat append the encodings, an ASCII char encodes to one byte; utf-8 encoding itself is uninterpreted",
+        "format!(\" ({}s)\", seconds) is an opaque String of arbitrary length (R4): the width bound therefore holds for every elapsed time, not only up to 10^6 s",
+        "progress_bar's precondition total * (bar_size + 1) <= usize::MAX holds at its only call site (bar_size 40, counts bounded by the number of builds < 2^32 by C19's count_inv) but print_progress itself -- mutex, debounce thread, write! to the pending buffer, terminal::get_cols (ioctl, rejects < 10) -- is not under contract: 'a rendering problem never aborts the build' is decided only as 'these three functions never panic and terminate'",
+        "R19: the `for (count, ch) in [..3 tuples..]` loop of progress_bar is unrolled; dumb/other Progress implementations are not covered",
+    ],
+}
+
 NOT_APPLICABLE = {
     "C16": "OS-level effects (posix_spawn file actions, pipes, /bin/sh, waitpid, cross-thread output order) sit behind unsafe FFI and threads; no contract on n2's own code can express them (DESIGN.md §8)",
 }
 
 LEVEL_TEXT = {
+    "C20": {
+        "text": "Unbounded proof (Verus) on the real text of progress_fancy.rs task_message, truncate and progress_bar, over a trusted byte-level model of str/String: for every message, elapsed time and width >= 10, task_message terminates without panicking (every truncate/slice is at a character boundary, no subtraction underflows) and returns at most max_cols bytes, and a short message without time note is returned unchanged; truncate returns the longest prefix of at most max bytes ending on a character boundary (loop terminates because offset 0 is a boundary); progress_bar returns exactly bar_size bytes for every count vector whose total * (bar_size+1) fits in usize (nonlinear lemma: sum <= total => sum*b/total <= b, == b when sum == total).",
+        "note": "Genuine defect D5 (non-boundary truncate panic poisoning the progress mutex; underflow) found by the truncate precondition and fixed in /repo (dc1a548). The str/String wrappers are trusted; print_progress and the thread are not under contract.",
+        "design_ref": "DESIGN.md §6 C20",
+    },
     "C02": {
         "text": "Unbounded proof (Verus) on the real text of hash.rs (build_manifest, hash_build, TerseHash) and work.rs (check_build_dirty, check_build_files_missing, ensure_input_files, stat_all_outputs, record_finished): (1) the signature is hfinish of exactly [dirtying ins (name,mtime)*, sep, discovered ins (name,mtime)*, sep, cmdline, sep, rspfile?, outs (name,mtime)*, sep] -- a spec function taken from the property's list; hashing a missing file is an unreachable panic (precondition discharged at every call); (2) check_build_dirty returns Ok(false) (skip) only for a phony step or when every covered file is present AND a record exists AND the recorded signature equals the signature of the present state; (3) record_finished re-stats every dirtying input, discovered dep and output after the command and writes a record only if none is missing, with the signature of that re-stat'ed state and the new discovered list. For all graphs, file states and reports.",
         "note": "Whole-history equivalence with a clean build is a composition of (1)-(3) with C08 (log round trip) and C01 (ordering) argued in DESIGN.md; hash collisions and the mtime assumption are outside. Trusted: stat, hasher model, id map.",
